@@ -32,6 +32,9 @@ Lemma tables_complete : calls_complete && access_complete && new_complete = true
 Proof. vm_compute. reflexivity. Qed.
 Lemma no_outside_lockers : outside_ok = true.
 Proof. vm_compute. reflexivity. Qed.
+Lemma open_owner : open_owner_ok = true.
+Proof. vm_compute. reflexivity. Qed.
+
 Lemma node_identity : node_identity_ok = true.
 Proof. vm_compute. reflexivity. Qed.
 Lemma refs_ok : forall st, In st sites -> ref_ok st = true.
